@@ -1,5 +1,6 @@
 // C03 driver: ring_head + user buffer, igris::ring<char>, igris::ring<int>.
 #include "common/vlog.h"
+#include <type_traits>
 #include <igris/datastruct/ring.h>
 #include <igris/container/ring.h>
 #include <memory>
@@ -41,7 +42,16 @@ template <class R, class T> static void xop(R &x, const std::vector<std::string>
         long k = num(t[1]); std::vector<unsigned char> got;
         if (op == "MoveTail") { for (long j = 0; j < k; ++j) { got.push_back((unsigned char)x.tail()); x.move_tail_one(); } }
         else for (long j = 0; j < k && !x.empty(); ++j) { got.push_back((unsigned char)x.tail()); x.pop(); }
-        Ev e(op.c_str()); e.i("k", k).i("ret", (long)got.size()).bytes("data", got.data(), got.size()); obs(e); e.end(); }
+        Ev e(op.c_str()); e.i("k", k).i("kb", k).i("ret", (long)got.size()).bytes("data", got.data(), got.size()); obs(e); e.end(); }
+    else if (op == "BWrite" || op == "BRead") {
+        if constexpr (std::is_same<T, char>::value) {
+            if (op == "BWrite") { auto d = blist(t[1]); char *src = (char *)malloc(d.size() + 1); memcpy(src, d.data(), d.size());
+                size_t n = t.size() > 2 ? strtoul(t[2].c_str(), 0, 10) : d.size();
+                size_t ret = x.write(src, n); free(src); Ev e("Write"); e.bytes("s", d.data(), d.size()).str("ns", t.size() > 2 ? t[2].c_str() : "").i("bulk", 1).i("ret", (long)ret); obs(e); e.end(); }
+            else { unsigned long kk = strtoul(t[1].c_str(), 0, 10); long k = kk > (1ul << 20) ? (long)x.avail() : (long)kk;
+                char *dst = (char *)malloc(k + 1); size_t ret = x.read(dst, (size_t)kk);
+                Ev e("Read"); e.i("k", kk > 2147483647ul ? 2147483647l : (long)kk).str("ks", t[1].c_str()).i("kb", k).i("bulk", 1).i("ret", (long)ret).bytes("data", dst, ret > (size_t)k ? k : ret); obs(e); e.end(); free(dst); }
+        } else { fprintf(stderr, "bulk read/write needs ring<char>\n"); exit(3); } }
     else if (op == "Clean") { x.reset(); Ev e("Clean"); obs(e); e.end(); }
     else if (op == "ClearPop") { x.clear(); Ev e("ClearPop"); obs(e); e.end(); }
     else if (op == "Last") { Ev e("Last"); e.i("ret", (unsigned char)x.last()); obs(e); e.end(); }
@@ -59,10 +69,16 @@ static void cop(const std::vector<std::string> &t) {
     if (op == "Putc") { int ret = ring_putc(&C.r, C.buf(), (char)num(t[1])); Ev e("Putc"); e.i("b", num(t[1])).i("ret", ret); obs(e); e.end(); }
     else if (op == "Getc") { int ret = ring_getc(&C.r, C.buf()); Ev e("Getc"); e.i("ret", ret); obs(e); e.end(); }
     else if (op == "Write") { auto d = blist(t[1]); char *src = (char *)malloc(d.size() + 1); memcpy(src, d.data(), d.size());
-        int ret = ring_write(&C.r, C.buf(), src, d.size()); free(src); Ev e("Write"); e.bytes("s", d.data(), d.size()).i("ret", ret); obs(e); e.end(); }
-    else if (op == "Read") { long k = num(t[1]); unsigned char *dst = (unsigned char *)malloc(k + 2 * G); memset(dst, 0x5A, k + 2 * G);
-        int ret = ring_read(&C.r, C.buf(), (char *)dst + G, k);
-        Ev e("Read"); e.i("k", k).i("ret", ret).bytes("data", dst + G, ret < 0 ? 0 : (ret > k ? k : ret)).bytes("dgl", dst, G).bytes("dgr", dst + G + k, G).bytes("drest", dst + G + (ret < 0 ? 0 : (ret > k ? k : ret)), k - (ret < 0 ? 0 : (ret > k ? k : ret))); obs(e); e.end(); free(dst); }
+        // optional bound above the data length ("write what fits", the data block holds at least room() bytes - the script guarantees it)
+        unsigned long n = t.size() > 2 ? strtoul(t[2].c_str(), 0, 10) : d.size();
+        int ret = ring_write(&C.r, C.buf(), src, (unsigned int)n); free(src); Ev e("Write"); e.bytes("s", d.data(), d.size()).str("ns", t.size() > 2 ? t[2].c_str() : "").i("ret", ret); obs(e); e.end(); }
+    else if (op == "Read") { unsigned long kk = strtoul(t[1].c_str(), 0, 10);
+        // a bound above 2^20 ("read everything"): the destination holds exactly what is queued; the bound is logged saturated to
+        // 2^31-1 (k) and exactly as text (ks); kb = bytes of the destination block
+        long k = kk > (1ul << 20) ? (long)ring_avail(&C.r) : (long)kk;
+        unsigned char *dst = (unsigned char *)malloc(k + 2 * G); memset(dst, 0x5A, k + 2 * G);
+        int ret = ring_read(&C.r, C.buf(), (char *)dst + G, (unsigned int)kk);
+        Ev e("Read"); e.i("k", kk > 2147483647ul ? 2147483647l : (long)kk).str("ks", t[1].c_str()).i("kb", k).i("ret", ret).bytes("data", dst + G, ret < 0 ? 0 : (ret > k ? k : ret)).bytes("dgl", dst, G).bytes("dgr", dst + G + k, G).bytes("drest", dst + G + (ret < 0 ? 0 : (ret > k ? k : ret)), k - (ret < 0 ? 0 : (ret > k ? k : ret))); obs(e); e.end(); free(dst); }
     else if (op == "MoveHead") { auto d = blist(t[1]); for (size_t j = 0; j < d.size(); ++j) C.buf()[(C.r.head + j) % C.r.size] = (char)d[j];
         if (d.size() == 1) ring_move_head_one(&C.r); else ring_move_head(&C.r, d.size());
         Ev e("MoveHead"); e.bytes("s", d.data(), d.size()).i("ret", (long)d.size()); obs(e); e.end(); }
